@@ -60,7 +60,7 @@ macro_rules! contracts {
             r
         }
         /// pow: C99 F.9.4.4 special cases in full; for finite x > 0: r >= 0 and (r >= 1 iff (x-1)*y >= 0); never NaN
-        /// unless the special-case table says so.
+        /// unless the special-case table says so; finite when x is a positive normal number and |y| <= 1.
         pub fn $pow(x: $F, y: $F) -> $F {
             if y == 0.0 { return 1.0; }
             if x == 1.0 { return 1.0; }
@@ -83,6 +83,8 @@ macro_rules! contracts {
             kani::assume(!r.is_nan());
             if x > 0.0 {
                 kani::assume(r >= 0.0);
+                // |y| <= 1 and x a normal number: x^y lies between x and 1/x, both finite (1/MIN_POSITIVE < MAX)
+                if x >= <$F>::MIN_POSITIVE && y >= -1.0 && y <= 1.0 { kani::assume(r.is_finite()); }
                 if (x > 1.0 && y > 0.0) || (x < 1.0 && y < 0.0) { kani::assume(r >= 1.0); } else { kani::assume(r <= 1.0); }
             } else {
                 // negative finite base, integer exponent: sign by parity
